@@ -16,6 +16,7 @@ import (
 	"strings"
 	"sync"
 	"time"
+	"unicode/utf8"
 
 	"github.com/ogen-go/ogen/gen"
 
@@ -37,6 +38,7 @@ type family struct {
 	rejectW   string
 	recSum    bool
 	recursive bool
+	param     string // parameter part: location the root schema is used at ("" = request body)
 }
 
 var refRe = regexp.MustCompile(`"#/components/schemas/([A-Za-z0-9_]+)"`)
@@ -60,8 +62,15 @@ func specDoc(fams []*family) []byte {
 	comps := jsonv.NewObject()
 	for _, f := range fams {
 		op := fmt.Sprintf(`{"post":{"operationId":"op%d","requestBody":{"required":true,"content":{"application/json":{"schema":{"$ref":"#/components/schemas/%s"}}}},"responses":{"200":{"description":"ok"}}}}`, f.idx, f.root)
+		pathKey := fmt.Sprintf("/s%d", f.idx)
+		if f.param != "" {
+			op = fmt.Sprintf(`{"get":{"operationId":"op%d","parameters":[{"name":"v","in":%q,"required":true,"schema":{"$ref":"#/components/schemas/%s"}}],"responses":{"200":{"description":"ok"}}}}`, f.idx, f.param, f.root)
+			if f.param == "path" {
+				pathKey += "/{v}"
+			}
+		}
 		ov, _ := jsonv.Parse([]byte(op))
-		paths.Members = append(paths.Members, jsonv.Member{Name: fmt.Sprintf("/s%d", f.idx), Value: ov})
+		paths.Members = append(paths.Members, jsonv.Member{Name: pathKey, Value: ov})
 		names := make([]string, 0, len(f.comps))
 		for n := range f.comps {
 			names = append(names, n)
@@ -116,9 +125,13 @@ func Drive(r *ev.Run, args []string, conformance bool) int {
 	defer cleanup()
 
 	nFam := r.N(900, 6000)
+	nParam := r.N(480, 4000) // parameter part: scalar and array schemas used as query/path/header/cookie parameters
 	if conformance {
 		nFam = r.N(300, 3000)
+		nParam = 0
 	}
+	nBody := nFam
+	nFam += nParam
 	perSpec := 60
 	opts := gen.Options{Generator: gen.GenerateOptions{Features: genlab.Features("paths/server")}}
 	fams := make([]*family, nFam)
@@ -141,8 +154,17 @@ func Drive(r *ev.Run, args []string, conformance bool) int {
 				comps[m.Name] = m.Value
 			}
 		}
+		param := ""
+		if i >= nBody {
+			param = []string{"query", "path", "header", "cookie"}[(i-nBody)%4]
+			ps := schemaref.GenParamSchema(rng, schemaref.GenOptions{})
+			for k := 0; param == "cookie" && ps.Get("type").Str == "array" && k < 50; k++ {
+				ps = schemaref.GenParamSchema(rng, schemaref.GenOptions{}) // cookie arrays (form, exploded) are not admitted; C06 covers cookies
+			}
+			comps, root = map[string]*jsonv.Value{"Root": ps}, "Root"
+		}
 		prefix := fmt.Sprintf("F%d", i)
-		f := &family{idx: i, comps: rename(comps, prefix), root: prefix + root}
+		f := &family{idx: i, comps: rename(comps, prefix), root: prefix + root, param: param}
 		fams[i] = f
 		res := schemaref.MapResolver(f.comps)
 		rootS := f.comps[f.root]
@@ -195,7 +217,16 @@ func Drive(r *ev.Run, args []string, conformance bool) int {
 				// valid only thanks to 'nullable' on an object schema, in a family with a recursive component
 				tag = "null-for-object-in-recursive-family"
 			}
-			f.cases = append(f.cases, servlab.C03Case{Body: body, Valid: ok, Kind: kind, Why: why, Tag: tag})
+			c := servlab.C03Case{Body: body, Valid: ok, Kind: kind, Why: why, Tag: tag}
+			if f.param != "" {
+				target, hdr, sendable := asParameter(f, rootS, inst)
+				if !sendable {
+					r.Count("parameter_instances_not_expressible_in_the_serialization", 1)
+					return
+				}
+				c.Target, c.Header = target, hdr
+			}
+			f.cases = append(f.cases, c)
 			f.insts = append(f.insts, inst)
 		}
 		for k := 0; k < 3; k++ {
@@ -207,8 +238,11 @@ func Drive(r *ev.Run, args []string, conformance bool) int {
 				}
 			}
 		}
-		for k := 0; k < 6; k++ {
+		for k := 0; k < 6 && f.param == ""; k++ {
 			add(schemaref.RandomJSON(rng, 3), "random")
+		}
+		for k := 0; k < 4 && f.param != ""; k++ {
+			add(schemaref.GenInstance(rootS, res, rng), "valid")
 		}
 		// admission on its own (cheap): does the generator accept this schema family?
 		res1 := genlab.GenerateIR(specDoc([]*family{f}), opts)
@@ -299,6 +333,9 @@ func Drive(r *ev.Run, args []string, conformance bool) int {
 		for fi := lo; fi < hi; fi++ {
 			f := live[fi]
 			fam := servlab.C03Family{Path: fmt.Sprintf("/s%d", f.idx), Schema: string(jsonv.Compact(f.comps[f.root]))}
+			if f.param != "" {
+				fam.SigPrefix = "param/" + f.param + "/"
+			}
 			if f.recSum {
 				fam.Tags = append(fam.Tags, "recursive-sum")
 			}
@@ -674,4 +711,119 @@ func dropPropertyCounts(s *jsonv.Value) *jsonv.Value {
 		x.Members = keep
 	})
 	return c
+}
+
+// asParameter serialises an instance of a scalar/array parameter schema the way the OpenAPI style table prescribes
+// for the location's default style (query: form exploded; path, header: simple; cookie: form) and says whether the
+// instance is in the domain where text and JSON value correspond one to one: the JSON kind equals the declared
+// type (a query string "12" is a valid string, the JSON number 12 is not), no null, no empty array (an absent
+// parameter), and strings the location can carry unambiguously.
+func asParameter(f *family, schema, inst *jsonv.Value) (target string, hdr map[string]string, ok bool) {
+	typ := ""
+	if t := schema.Get("type"); t != nil {
+		typ = t.Str
+	}
+	itemTyp := ""
+	if it := schema.Get("items"); it != nil && it.Get("type") != nil {
+		itemTyp = it.Get("type").Str
+	}
+	text := func(t string, v *jsonv.Value) (string, bool) {
+		switch {
+		case t == "string" && v.Kind == jsonv.String:
+			s := v.Str
+			if !utf8.ValidString(s) {
+				return "", false
+			}
+			switch f.param {
+			case "query":
+				return s, true
+			case "path":
+				if s == "" || (typ == "array" && strings.Contains(s, ",")) {
+					return "", false
+				}
+				return s, true
+			case "header":
+				if s == "" || strings.TrimSpace(s) != s || (typ == "array" && strings.Contains(s, ",")) {
+					return "", false
+				}
+				for _, r := range s {
+					if r < 0x20 || r > 0x7e {
+						return "", false
+					}
+				}
+				return s, true
+			default: // cookie: only what needs no escaping
+				if s == "" {
+					return "", false
+				}
+				for _, r := range s {
+					if !(r >= 'a' && r <= 'z' || r >= 'A' && r <= 'Z' || r >= '0' && r <= '9' || r == '_' || r == '.' || r == '~' || r == '-') {
+						return "", false
+					}
+				}
+				return s, true
+			}
+		case (t == "integer" || t == "number") && v.Kind == jsonv.Number:
+			return v.Num.Text, true
+		case t == "boolean" && v.Kind == jsonv.Bool:
+			if v.B {
+				return "true", true
+			}
+			return "false", true
+		}
+		return "", false
+	}
+	var vals []string
+	if typ == "array" {
+		if inst.Kind != jsonv.Array || len(inst.Elems) == 0 {
+			return "", nil, false
+		}
+		for _, e := range inst.Elems {
+			t, ok := text(itemTyp, e)
+			if !ok {
+				return "", nil, false
+			}
+			vals = append(vals, t)
+		}
+	} else {
+		t, ok := text(typ, inst)
+		if !ok {
+			return "", nil, false
+		}
+		vals = []string{t}
+	}
+	base := fmt.Sprintf("/s%d", f.idx)
+	esc := func(s string) string { // every byte outside the unreserved set is escaped
+		var b strings.Builder
+		for i := 0; i < len(s); i++ {
+			c := s[i]
+			if c >= 'a' && c <= 'z' || c >= 'A' && c <= 'Z' || c >= '0' && c <= '9' || c == '-' || c == '.' || c == '_' || c == '~' {
+				b.WriteByte(c)
+			} else {
+				fmt.Fprintf(&b, "%%%02X", c)
+			}
+		}
+		return b.String()
+	}
+	switch f.param {
+	case "query":
+		var parts []string
+		for _, v := range vals {
+			parts = append(parts, "v="+esc(v))
+		}
+		return base + "?" + strings.Join(parts, "&"), nil, true
+	case "path":
+		var parts []string
+		for _, v := range vals {
+			parts = append(parts, esc(v))
+		}
+		return base + "/" + strings.Join(parts, ","), nil, true
+	case "header":
+		return base, map[string]string{"V": strings.Join(vals, ",")}, true
+	default:
+		if typ == "array" {
+			return "", nil, false // cookie arrays: form, explode=false only; left to C06
+		}
+		return base, map[string]string{"Cookie": "v=" + vals[0]}, true
+	}
 }
